@@ -104,7 +104,8 @@ def classify(case, impl, model, disc):
 
 LEVEL_TEXT = ("Proof: Coq theorems C15_rows_bijection / C15_values / C15_memory_flag about the Gallina model of cuda_kernel_launch_stats "
               "(row list = exactly the linked launch/activity pairs, each once; values; flag semantics), for all frames; tied to the code by a "
-              "correspondence run comparing every row of get_cuda_kernel_launch_stats with the model evaluated in Coq on the loaded frame.")
+              "correspondence run comparing every row of get_cuda_kernel_launch_stats with the model evaluated in Coq on the loaded frame."
+              " C15_resolution_independent: times multiplied by k >= 0 multiply durations and delay of every row by k.")
 LEVEL_NOTE = ("Model is hand-written (pandas isin/merge/clip); tie = correspondence on generated traces only. Hypothesis wf_launch (launch call's "
               "correlation id unique on stream -1) is the property's own quantifier. Trusted: Coq kernel, harness, pandas.")
 TECHNIQUE = "Coq proof over Gallina model + differential correspondence (vm_compute) against the public API"
